@@ -37,7 +37,7 @@ Definition wres (A : Type) : Type := (string + A)%type.
 Definition wbind {A B : Type} (r : wres A) (f : A -> wres B) : wres B :=
   match r with inl m => inl m | inr a => f a end.
 
-Notation "'do*' x <- e ; f" := (wbind e (fun x => f))
+Local Notation "'do*' x <- e ; f" := (wbind e (fun x => f))
   (at level 200, x pattern, e at level 100, f at level 200).
 
 (* static context at a program point *)
